@@ -97,6 +97,7 @@ pub fn bfs<M: Machine>(m: &M, rep: &mut Report, max_depth: usize, max_states: us
                         classes.insert(c, (key.clone(), h2.clone()));
                     }
                 }
+                rep.outcome(&key);
                 if seen.contains_key(&key) {
                     st.dedup_hits += 1;
                 } else {
